@@ -66,3 +66,22 @@ Proof.
   assert (Hrest' : N.of_nat sl <= nr + 4 * kr + 6 * N.of_nat T + XN) by lia.
   lia.
 Qed.
+
+(* non-vacuity: a concrete instance of every hypothesis of multi_stitched_w - two worker streams of
+   two input bytes each (large-window form, catable), accounted at 8 bytes, stitched to 13 bytes,
+   Multi bound 47 *)
+Example multi_stitched_point :
+  let c := mkScfg 14 false 1 true true in
+  let m := [17; 22; 2; 0; 2; 104; 105; 3] in
+  Concat_length.wl_ok 14 /\ scfg_ok c = true /\ s_magic c = false /\ s_wbits c = 14
+  /\ schedule_ok c 2 [] true = true /\ stream_bytes c 2 [] true = Some (Concat.lenN m)
+  /\ (5 <= length m)%nat /\ Forall (Concat_length.catable_part 14) [m]
+  /\ ConcatSpec.concat_spec None [m; m] = Some [17; 22; 2; 0; 2; 104; 105; 8; 0; 8; 104; 105; 3]
+  /\ max_compressed_size_multi (2 + sumN [2]) (N.of_nat (length [2]) + 1) = Ok 47.
+Proof.
+  cbv zeta. split; [right; right; right; reflexivity|].
+  repeat (split; [vm_compute; reflexivity|]).
+  split; [cbn; lia|]. split.
+  - constructor; [|constructor]. exact (proj1 Concat_length.catable_part_point).
+  - split; vm_compute; reflexivity.
+Qed.
